@@ -20,7 +20,8 @@ The specification is the brute-force joint of `Proofs/Semantics.lean` (`joint`, 
 
 1. `gen_query_paths_one_joint` — `project`, uncached (every admissible `greedy_order`) and cached: `total · marginal_attrs / Z`, in the
    requested order, summing to `total`; cached = uncached.
-2. `gen_datavector_end_to_end`, `gen_krondot_end_to_end` — the materialised vector / the Kronecker query on the same joint.
+2. `gen_datavector_end_to_end`, `gen_krondot_end_to_end` — the materialised vector / the Kronecker query on the same joint;
+   `gen_krondot_sums` — the all-ones Kronecker query returns the total.
 3. `gen_manyMarginals_end_to_end` — `calculate_many_marginals` with the generated store as `marginals`, the generated `neighbors` field and
    the generated cached `project` as fallback; the only contract left is `floyd_warshall_predecessor_and_distance` (`PathsOK`).
 4. `gen_answers_agree_on_shared_attributes` — any two answers agree after marginalising to their common attributes.
@@ -239,6 +240,49 @@ theorem gen_krondot_end_to_end (h : CallOK nx d cliques mode total pots)
   rw [gen_init_domain, gen_init_total]
   exact gen_krondot_correct d _ _ _ pots h.modelOK mats ⟨total.v⟩ hfresh hinj hlen hshape
     (Bd.sizes_pos_of_partition_ne_zero d pots h.dom_wf h.Z_ne) ridx hr
+
+/-- the total query: one all-ones row per attribute -/
+def onesMats (d : Dom) : List (Nat × List (PlainOf K)) := d.map (fun p => (1, List.replicate p.2 (⟨1⟩ : PlainOf K)))
+
+theorem inRange_ones (n : Nat) : InRange (List.replicate n 1) (List.replicate n 0) := by
+  induction n with
+  | zero => exact trivial
+  | succ n ih => exact ⟨Nat.zero_lt_one, ih⟩
+
+theorem ones_entry (d : Dom) (τ : Attr → Nat) (hτ : d.Valid τ) (i : Nat) (hi : i < d.length) :
+    ((((onesMats (K := K) d).getD i (0, [])).2).getD
+      ((List.replicate d.length 0).getD i 0 * d.shape.getD i 0 + τ (d.attrs.getD i "")) ⟨0⟩).v = 1 := by
+  have hlt : τ (d[i]).1 < (d[i]).2 := hτ _ (List.getElem_mem hi)
+  simp only [onesMats, Dom.shape, Dom.attrs, List.getD_eq_getElem?_getD, List.getElem?_map, List.getElem?_eq_getElem hi,
+    List.getElem?_replicate, hi, if_true, Option.map_some, Option.getD_some, Nat.zero_mul, Nat.zero_add, hlt]
+
+/-- **`gen_krondot_sums`**: the Kronecker query whose every factor is a single all-ones row — the total query — answered by the
+GENERATED `krondot` on the fields of the generated `__init__` is the model total -/
+theorem gen_krondot_sums (h : CallOK nx d cliques mode total pots)
+    (hfresh : ∀ a ∈ d.attrs, (a ++ "-answer") ∉ d.attrs)
+    (hinj : ∀ a ∈ d.attrs, ∀ b ∈ d.attrs, a ++ "-answer" = b ++ "-answer" → a = b) :
+    ((GMQ.krondot (toPlain (K := K)) (fun x : LogOf K => (⟨x.v⟩ : PlainOf K)) (genInit nx d cliques total mode).domain
+        (genInit nx d cliques total mode).cliques (genInit nx d cliques total mode).message_order pots
+        (⟨(genInit nx d cliques total mode).total.v⟩ : PlainOf K) (matsOf d (onesMats d))).get (List.replicate d.length 0)).v
+      = total.v := by
+  have hsizes := Bd.sizes_pos_of_partition_ne_zero d pots h.dom_wf h.Z_ne
+  rw [gen_krondot_end_to_end h (onesMats d) hfresh hinj (by simp [onesMats])
+    (by
+      intro i hi
+      have hi' : i < d.length := by simpa [onesMats] using hi
+      simp [onesMats, Dom.shape, List.getD_eq_getElem?_getD, hi'])
+    (List.replicate d.length 0)
+    (by
+      have : (onesMats (K := K) d).map (·.1) = List.replicate d.length 1 := by
+        simp only [onesMats, List.map_map]
+        exact List.eq_replicate_iff.mpr ⟨by simp, fun b hb => by obtain ⟨p, _, rfl⟩ := List.mem_map.mp hb; rfl⟩
+      rw [this]; exact inRange_ones _)]
+  rw [sumOver_congr_valid d h.dom_wf d.attrs (fun _ => 0) _ (joint pots) (fun p hp => hsizes p hp) (fun τ hτ => by
+    rw [List.prod_eq_one (fun x hx => by
+      obtain ⟨i, hi, rfl⟩ := List.mem_map.mp hx
+      exact ones_entry d τ hτ i (List.mem_range.mp hi)), one_mul])]
+  show partition d pots * total.v / partition d pots = total.v
+  field_simp [h.Z_ne]
 
 end vector
 
@@ -525,6 +569,9 @@ example : (genInit exNx exD exCl (⟨100⟩ : LogOf ℚ) (.given exElim)).clique
   decide
 
 example (idx : List Nat) (hidx : InRange exD.shape idx) := gen_datavector_end_to_end ex_callOK idx hidx
+
+/-- `gen_krondot_sums` on the first call: the all-ones query returns the total -/
+example := gen_krondot_sums ex_callOK (by decide) (by decide)
 
 /-- `gen_krondot_end_to_end`: the all-ones row vectors (the total query) -/
 example := gen_krondot_end_to_end ex_callOK [(1, [⟨1⟩, ⟨1⟩]), (1, [⟨1⟩, ⟨1⟩]), (1, [⟨1⟩, ⟨1⟩])] (by decide) (by decide) (by decide)
